@@ -34,8 +34,8 @@ ASSUMPTIONS = [
 ]
 FLOORS = {"quick": {"evaluations": 300, "genuine_verified": 40, "alterations_refused": 220,
                     "printed_values_compared": 400},
-          "thorough": {"evaluations": 15000, "genuine_verified": 2000,
-                       "alterations_refused": 11000, "printed_values_compared": 20000}}
+          "thorough": {"evaluations": 50000, "genuine_verified": 6000,
+                       "alterations_refused": 40000, "printed_values_compared": 60000}}
 
 LEDGER_ALTER = ["ui_message", "ui_signature", "ui_app_hash", "signer_message", "signer_envelope",
                 "signer_signature", "signer_app_hash", "device_signature", "device_pubkey",
@@ -50,7 +50,7 @@ SGX_ALTER = ["env:quote", "env:quote-report-data", "env:signature", "env:att-key
 def shards(tier, seed):
     if tier == "quick":
         return [{"seed": seed * 1000 + i, "n": 1} for i in range(16)]
-    return [{"seed": seed * 1000 + i, "n": 28} for i in range(32)]
+    return [{"seed": seed * 1000 + i, "n": 100} for i in range(32)]
 
 
 def flipper(rng, lo=0, hi=None):
